@@ -252,6 +252,112 @@ def _work(job):
     return out
 
 
+def random_executions(gs, variant, dim, rng, n_exec, n_ops):
+    """Random operations on real CondSRF objects (no TLC involved); logs whether each call re-ran the kriging."""
+    OFF[0] = 0.0
+    cpos_all = [cond_pos(1, dim), cond_pos(2, dim)]
+    kcls = gs.krige.Krige
+    orig = kcls.__call__
+    count = [0]
+
+    def counting(this, *a, **k):
+        count[0] += 1
+        return orig(this, *a, **k)
+
+    events = []
+    kcls.__call__ = counting
+    try:
+        for _x in range(n_exec):
+            cfg = {"cpos": rng.choice([1, 2]), "cval": rng.choice([1, 2]), "model": rng.choice([1, 2, 3]), "mean": rng.choice([1, 2])}
+            seed = rng.choice([1, 2])
+            r = Real(gs, variant, dim, cfg, seed)
+            events.append({"name": "Init", "cfg": dict(cfg), "seed": seed})
+            have_pos = False
+            for _i in range(n_ops):
+                k = rng.choice(["Call", "Call", "Call", "SetPos", "SetCondition", "ChangeModel", "ChangeMean", "KrigeCall", "DeleteFields"])
+                if k == "Call":
+                    p = rng.choice([KEEP, 1, 2, 3]) if have_pos else rng.choice([1, 2, 3])
+                    op = {"name": "Call", "p": p, "s": rng.choice([KEEP, 1, 2])}
+                    have_pos = True
+                elif k in ("SetPos", "KrigeCall"):
+                    op = {"name": k, "p": rng.choice([1, 2, 3])}
+                    have_pos = True
+                elif k == "SetCondition":
+                    form = rng.choice(["both", "val", "pos", "none"])
+                    cp = cfg["cpos"] if form in ("val", "none") else rng.choice([1, 2])
+                    cv = cfg["cval"] if form in ("pos", "none") else rng.choice([1, 2])
+                    op = {"name": k, "cp": cp, "cv": cv, "form": form, "refresh": cp == cfg["cpos"] and cv == cfg["cval"]}
+                    cfg["cpos"], cfg["cval"] = cp, cv
+                elif k == "ChangeModel":
+                    m = rng.choice([x for x in (1, 2, 3) if x != cfg["model"]])
+                    op = {"name": k, "m": m, "how": rng.choice(["inplace", "assign"])}
+                    cfg["model"] = m
+                elif k == "ChangeMean":
+                    v = 3 - cfg["mean"]
+                    op = {"name": k, "v": v}
+                    cfg["mean"] = v
+                else:
+                    op = {"name": k}
+                before = count[0]
+                r.apply(op, cpos_all)
+                if k == "Call":
+                    op["reuse"] = count[0] == before
+                events.append(op)
+    finally:
+        kcls.__call__ = orig
+    return events
+
+
+def trace_validation(rep, sc, tier, rng):
+    import json
+    import gstools as gs
+
+    n_exec, n_ops = (60, 25) if tier == "quick" else (500, 40)
+    jobs, meta = [], {}
+    for variant, dim in (("Simple", 1), ("Ordinary", 2)):
+        tag = "%s_%d" % (variant, dim)
+        with warnings.catch_warnings():
+            warnings.simplefilter("ignore")
+            evs = random_executions(gs, variant, dim, rng, n_exec, n_ops)
+        fn = sc.write("ctrace_%s.json" % tag, json.dumps(evs))
+        name = "TR_" + tag
+        mod, cfg = mc_text(name, True, "mc")
+        mod = mod.replace("EXTENDS CondCache", "EXTENDS TraceCondCache")
+        sc.write(name + ".tla", mod)
+        cfgt = cfg + "SPECIFICATION TraceSpec\nINVARIANT TraceMatches\nINVARIANT NotStuck\nPOSTCONDITION TraceAccepted\nCHECK_DEADLOCK FALSE\n"
+        jobs.append((tag, sc, name, cfgt, dict(workers=1, timeout=1800, env={"TRACE_FILE": fn})))
+        meta[tag] = evs
+    tag0 = jobs[0][0]
+    evs0 = json.loads(json.dumps(meta[tag0]))
+    k = next(i for i in range(len(evs0) // 2, len(evs0)) if evs0[i]["name"] == "Call")
+    evs0[k]["reuse"] = not evs0[k]["reuse"]
+    fn0 = sc.write("ctrace_corrupt.json", json.dumps(evs0))
+    jobs.append(("__corrupt__", sc, jobs[0][2], jobs[0][3], dict(workers=1, timeout=1800, env={"TRACE_FILE": fn0})))
+    res = tlc.run_many(jobs, parallel=3)
+    rc = res.pop("__corrupt__")
+    tlc.must_pass(rc, "corrupted trace")
+    if rc.error is None:
+        raise tlc.MachineryError("binding not demonstrated: a corrupted CondSRF trace was accepted")
+    n_ev = n_ex = n_bad = 0
+    for tag, r in sorted(res.items()):
+        evs = meta[tag]
+        tlc.must_pass(r, "trace " + tag)
+        rep.add_tlc("TraceCondCache[%s]" % tag, r)
+        n_ev += len(evs)
+        n_ex += sum(1 for e in evs if e["name"] == "Init")
+        if r.error:
+            n_bad += 1
+            tr = tlc.error_trace(r)
+            l = tr[-1]["state"].get("l", 0) if tr else 0
+            idx = max(0, l - 2)
+            rep.drift_msg("recorded CondSRF execution (%s) is not explained by the reuse decision of CondCache.tla at event #%d %s (%s)"
+                          % (tag, idx, evs[idx] if idx < len(evs) else "?", r.error[1]))
+    rep.traces += n_ex
+    rep.extra["trace_validation"] = {"executions": n_ex, "events": n_ev, "rejected_batches": n_bad,
+                                     "observable": "whether Krige.__call__ ran during cond_srf() (cache reused or not), through a wrapper",
+                                     "binding_demonstration": "a recorded execution with one flipped observation is rejected: %s %s" % rc.error}
+
+
 def run(pid, tier, seed, replay=None):
     rep = Report(pid, tier, seed)
     rng = random.Random(seed)
@@ -281,7 +387,7 @@ def run(pid, tier, seed, replay=None):
         mod, cfg = mc_text("S_cc", True)
         sc.write("S_cc.tla", mod)
         jobs.append(("S_cc", sc, "S_cc", cfg + "INIT Init\nNEXT Next\n", dict(timeout=1800, simulate=dict(
-            num=2000 if thorough else 200, depth=30 if thorough else 18, seed=rng.randrange(1, 2**31), file=sc.path("sim/S_cc")))))
+            num=700 if thorough else 200, depth=30 if thorough else 18, seed=rng.randrange(1, 2**31), file=sc.path("sim/S_cc")))))
         res = tlc.run_many(jobs, parallel=4)
         for nm, r in res.items():
             tlc.must_pass(r, nm)
@@ -301,6 +407,7 @@ def run(pid, tier, seed, replay=None):
         behs = [("state-graph edge cover", [nodes[i] for i in p]) for p in ps]
         behs += [("simulate", [s for _a, s in b]) for b in tlc.read_sim_traces(sc.path("sim"), "S_cc")]
         behs = [b for b in behs if any(s["op"]["name"] == "Call" and s["op"]["compare"] for s in b[1][1:])]
+        trace_validation(rep, sc, tier, rng)
     work = []
     combos = [("Simple", 1, 0.0, False), ("Ordinary", 2, 0.0, False), ("Simple", 2, 0.3, False), ("Ordinary", 1, 0.0, True),
               ("Simple", 2, 0.0, True)]
